@@ -141,6 +141,10 @@ RULE_CLAUSES = {
     'NOTHROW': 'no non-throwing function (noexcept, throw(), destructor) reaches a throw site through in-repo callees (NOTHROW)',
     'USEDSTATES': 'GetUsedStates inserts parents, children and final states unconditionally and nothing else (USEDSTATES)',
     'ALPHASRC': "an operation reads the alphabet of an operand, never that of a freshly default-constructed local (ALPHASRC)",
+    'KEPTRULES': 'the container of rules kept for the result is only appended to, never overwritten per key outside the first-visit guard (KEPTRULES)',
+    'INSETLABEL': 'per-block label data of the LTS engine is touched only for labels in that block\'s inset (INSETLABEL)',
+    'FLAGRESET': 'an accumulated boolean is assigned afresh before it is accumulated again after having been read (FLAGRESET)',
+    'GENPRE': 'a choice-function generator is constructed only over components tested non-empty on every path (GENPRE)',
     'SIBLING': 'sibling functors hold and initialise the same caches and agree on the shape of their shared calls (SIBLING)',
     'FORWARD': 'facade methods forward every argument, in order, to the same-named core method (FORWARD)',
     'TUPLEPOS': 'position-wise tuple handling never reorders, deduplicates or drops positions (TUPLEPOS)',
